@@ -313,6 +313,9 @@ def classify_message(case, r, o):
         f = case.get('inject')
         if f:
             return f
+    if 'function {} is' in msg:              # Error("function {} is not defined", n): unformatted message, n in the code
+        c0 = o.get('code') if o['kind'] == 'sol' and o.get('complete') else None
+        return ('body', 'fmtIntArg', c0 if c0 is not None and c0 != 500 else 0)
     if re.search(r'cannot open file [^\n]*\.nl', msg):
         return ('openNL', 'systemError', None)
     if re.search(r'\.nl:(\d+:\d+|offset \d+): ', msg):
@@ -471,7 +474,10 @@ def oracle(case, sc, o):
         else:
             good = ok[cause]()
         if not good:
-            if c == 500 and rz == 'wrappedInfeas':
+            if rz == 'fmtIntArg':
+                dev.append(('fmtintcode:%s' % ending[0], 'Error("… {} …", n) with a single int argument: the number (%d) became the solve code instead of a '
+                            'failure code, and the message is not formatted' % c))
+            elif c == 500 and rz == 'wrappedInfeas':
                 dev.append(('infeas500:%s' % ending[0], 'model proven infeasible during conversion ("Model infeasible: …") but the .sol carries solve code 500, not 200-299'))
             elif c == 1 and rz in EXITFAIL:
                 dev.append(('code1:%s:%s' % (rz, ending[0]), 'failure (%s at %s) reported with solve code 1 (class "solved") in the .sol' % (rz, ending[0])))
@@ -522,7 +528,7 @@ def scenario_line(case, ending_fault, dims, ans, partial=(0, 0)):
         f = 'none'
     else:
         st, rz, c = ending_fault
-        f = '%s:%s' % (st, rz) + (':%d' % c if rz == 'withCode' else '')
+        f = '%s:%s' % (st, rz) + (':%d' % c if rz in ('withCode', 'fmtIntArg') else '')
     return 'run %s %d %d %s %d %d %d %d %d %d %d %d %s %d %d %d' % (
         flags, 1 if case.get('stub', True) else 0, 1 if case.get('ampl') else 0, opts, 1 if case.get('objno_big') else 0,
         1 if case.get('just_export') else 0, dims[0], dims[1], partial[0], partial[1], can_open, can_flush, f, ans[0], 1 if ans[1] else 0, 1 if ans[2] else 0)
@@ -946,7 +952,7 @@ class CaseGen:
             s = s[:i] + r.choice(['\x00', '\xff', 'o', 'v', 'n', ' ', '\n', '9']) + s[i + 1:]
         elif k == 6 and len(L) > 11:
             i = r.rint(10, len(L) - 1)
-            L[i] = r.choice(['o%d' % r.rint(0, 90), 'v%d' % r.rint(0, 40), 'n1e999', 'f0 1', 'h3:abc', 'o54', '3'])
+            L[i] = r.choice(['o%d' % r.rint(0, 90), 'v%d' % r.rint(0, 40), 'n1e999', 'f0 1', 'f0 0', 'h3:abc', 'o54', '3'])
             s = '\n'.join(L)
         elif k == 7:
             s = s.replace('\n', '\r\n')
@@ -1005,7 +1011,8 @@ def corpus_cases(cg):
     L = c['nl'].split('\n'); L[4] = ' 3 3 3'; c['nl'] = '\n'.join(L); c['natural'] = None
     # a disequality whose two sides cancel: x != x
     m = lp(); m.lcon(('ne', ('v', 0), ('v', 0)))
-    c = cg.base('corpus:ne_same', m); c['natural'] = None; c['all_opts'] = []; out.append(c)
+    c = cg.base('corpus:fixed_ne_same', m); c['natural'] = ('convert', 'infeas', None);   # fdf7d27: x != x is false -> infeasible
+    c['all_opts'] = []; out.append(c)
     # header claiming 2^31-1 nonlinear variables (bounded here by the allocator limits of the sanitizer run time)
     c = mk('hdr_huge_count')
     L = c['nl'].split('\n'); L[4] = ' 2 2 2147483647'; c['nl'] = '\n'.join(L); c['natural'] = None
@@ -1014,11 +1021,12 @@ def corpus_cases(cg):
     L = c['nl'].split('\n'); L[1] = ' 2147483647 1 1 0 0 0'; c['nl'] = '\n'.join(L); c['natural'] = None; c['header'] = c09gen.header_dims(c['nl'])
     # header declaring 100 logical constraints, none defined
     c = mk('undefined_lcons')
-    L = c['nl'].split('\n'); L[1] = ' 2 1 1 0 0 100'; c['nl'] = '\n'.join(L); c['natural'] = None
+    L = c['nl'].split('\n'); L[1] = ' 2 1 1 0 0 100'; c['nl'] = '\n'.join(L); c['natural'] = ('convert', 'plain', None)   # 9f461e5: diagnosed
     # y != c with c outside y's domain inside a count (the lead's / C19's reproducer)
     m = nlgen.Model(); x = m.var(-4, 8); y = m.var(0, 2, True); m.obj('min', {x: 1})
     m.con(None, 3, {x: 1}, ('count', [('ne', ('v', y), ('n', 3)), ('le', ('v', x), ('n', 1))]))
-    c = cg.base('corpus:ne_outside_domain', m); c['natural'] = None; c['all_opts'] = []; out.append(c)
+    c = cg.base('corpus:fixed_ne_outside_domain', m); c['natural'] = 'none'
+    c['all_opts'] = []; out.append(c)
     # first line of the .col file empty, standalone mode printing the solution
     c = mk('names_first_line_empty', ampl=False, flags_argv=['-s'], flags_tok=['s'], options=[('wantsol=3', ('w', 3))])
     c['col'] = '\n' + c['col']
@@ -1071,12 +1079,19 @@ def corpus_cases(cg):
     mk('altsol_then_throw', options=[('sol:stub=@DIR@/alt', 'o')], script='code 250\nmsg s\naltsol 2\nthrow 2\n', answer=(250, False, False),
        altsol=2, inject=('solve', 'withCode', 250), synthetic=True)
     m0 = nlgen.Model(); m0.var(0, 10); m0.var(0, 10, True); m0.con(1, None, {0: 1, 1: 1})
-    c = cg.base('corpus:counterexample_nsol_no_objective', m0); c['natural'] = 'none'; c['options'] = [('sol:count=1', 'o')]; c['all_opts'] = c['options']; out.append(c)
+    c = cg.base('corpus:fixed_nsol_no_objective', m0); c['natural'] = 'none'; c['options'] = [('sol:count=1', 'o')]; c['all_opts'] = c['options']; out.append(c)
     mk('nsol_with_option_error', options=[('sol:stub=@DIR@/alt', 'o'), ('foo=1', 'b')])
     m1 = nlgen.Model(); m1.var(-1, 4, True); m1.con(3, None, {}, ('log10', ('v', 0))); m1.obj('min', {}, ('atanh', ('v', 0)))
-    c = cg.base('corpus:counterexample_plpoints_empty_integer_domain', m1); c['natural'] = None; c['all_opts'] = []; out.append(c)
+    c = cg.base('corpus:fixed_plpoints_empty_integer_domain', m1); c['natural'] = ('convert', 'infeas', None);   # a382c6e: diagnosed as infeasible
+    c['all_opts'] = []; out.append(c)
     m2 = nlgen.Model(); m2.var(0, 3); m2.obj('min', {0: 1}); m2.con(None, 5, {}, ('pow', ('+', ('n', 1), ('n', 1)), ('v', 0)))
-    c = cg.base('corpus:counterexample_pow_constant_expression_base', m2); c['natural'] = None; c['all_opts'] = []; out.append(c)
+    c = cg.base('corpus:fixed_pow_constant_expression_base', m2); c['natural'] = 'none';   # b539091: (1+1)^x is solved
+    c['all_opts'] = []; out.append(c)
+    for fn_no, nat in ((250, ('body', 'fmtIntArg', 250)), (5, ('body', 'fmtIntArg', 5)), (700, ('body', 'fmtIntArg', 700)), (1234, ('body', 'fmtIntArg', 1234))):
+        c = mk('%sundeclared_function_%d' % ('counterexample_' if fn_no in (250, 1234) else '', fn_no))
+        L = c['nl'].split('\n'); L[5] = ' 0 2000 0 1'; L[2] = ' 1 0'; L[4] = ' 1 0 0'
+        L[L.index('C0') + 1] = 'f%d 0' % fn_no
+        c['nl'] = '\n'.join(L); c['natural'] = nat
     mk('exe_options_var', env={'@EXE@_options': 'cvt:bigM=5', 'recsolver_options': 'foo=1'}, all_opts=[('cvt:bigM=5', 'o')])
     mk('exe_options_var_bad', env={'@EXE@_options': 'foo=1'}, all_opts=[('foo=1', 'b')])
     mk('exe_alias_exe', exe_alias='rs.exe', env={'@EXE@_options': 'foo=1'}, all_opts=[('foo=1', 'b')])
@@ -1164,7 +1179,7 @@ ALL_ARMS = (['parseFlags.' + x for x in ('nil', 'wantsol', 'noecho', 'dashdash',
             ['reportCode.mpError>=100', 'reportCode.mpError<100', 'reportCode.stdExn'] +
             ['conclude.finished-retry-after-write-error', 'conclude.exported', 'conclude.info'] +
             ['suppressMsg.true', 'suppressMsg.false'] +
-            ['Raise.' + k for k in KINDS + ['wrappedInfeas']] + ['Stage.' + st for st in STAGES])
+            ['Raise.' + k for k in KINDS + ['wrappedInfeas', 'fmtIntArg']] + ['Stage.' + st for st in STAGES])
 EXIT_CODE_OF = {'plain': -1, 'infeas': 200, 'wrappedInfeas': 200, 'solCheck': 150, 'unsupported': 1, 'optionError': -1, 'readError': 1, 'fmtError': 1}
 
 
@@ -1245,7 +1260,7 @@ def model_arms(c, fault, ending, wantsol_eff=None):
                 if kind == 'stdExn':
                     A.add('reportCode.stdExn')
                 else:
-                    ec = code if rz == 'withCode' else EXIT_CODE_OF.get(rz, -1)
+                    ec = code if rz in ('withCode', 'fmtIntArg') else EXIT_CODE_OF.get(rz, -1)
                     A.add('reportCode.mpError>=100' if ec is not None and ec >= 100 else 'reportCode.mpError<100')
     return A, writable
 
@@ -1443,8 +1458,17 @@ def run(ck):
         return coverage_mode(ck)
     ck.notes.append('PARTIAL: proof about the hand model of the outcome decision logic + sampled correspondence with the real driver; '
                     'termination / crash freedom of the C++ is observed only (ASan+UBSan, timeout) on the generated inputs')
-    proof_ok, failing = ck.proof_stage('MpVerif.C09.Props', 'MpVerif/C09/Props.lean', 'C09_',
-                                        ['MpVerif/C09/*.lean'], expect_min=36)
+    # translator tie: regenerate lean/MpVerif/Gen/C09Driver.lean from the current tree (clang typed AST)
+    gen = os.path.join(LEAN, 'MpVerif', 'Gen', 'C09Driver.lean')
+    rc, out, err = sh([sys.executable, os.path.join(VERIF, 'translators', 'gen_c09.py'), REPO, gen, os.path.join(BUILD, 'tr_c09')], timeout=600)
+    ck.log((out.strip() or err.strip())[-300:])
+    translator_ok = rc == 0
+    if translator_ok:
+        proof_ok, failing = ck.proof_stage('MpVerif.C09.Props', 'MpVerif/C09/Props.lean', 'C09_',
+                                            ['MpVerif/C09/*.lean', 'MpVerif/Gen/C09Driver.lean'], expect_min=46)
+    else:
+        proof_ok, failing = False, ['translator gen_c09.py: ' + (out + err).strip()[-400:]]
+        ck.cov.update({'obligations': 46, 'discharged': 0, 'checker_cmd': 'translators/gen_c09.py failed'})
     ck.log('proof stage: ok=%s failing=%s' % (proof_ok, failing[:8]))
     if ck.tier == 'thorough' and proof_ok:
         bad = ck.leanchecker(['MpVerif.C09.Props'])
